@@ -7,16 +7,28 @@ Theorems (all over Model/Routing.lean applied to the tables regenerated from /re
   negotiated_optimal        the same through the per-connection version map built from an ApiVersions answer
   route_class               ∀ registered API: the class sendRequest realises = the class Kafka designates
   route_leader              produce/fetch: an accepted request goes to the one broker leading every partition
+  leaderAll_src / leader_loops_agree / route_leader_src   the loops of produce/fetch/rawproduce Broker(), executed symbolically from the
+                            source (Gen.Routing.leaderStep_*), equal the model's leaderAll; route_leader holds of them
   route_leader_mismatch     partitions led by different brokers → the request is refused
   route_listoffsets_leader  a split ListOffsets part goes to its partition's leader
   route_listoffsets_designated … and never to a broker the layout does not designate (unknown leader → control)
   filter_eq_last_refresh    topic-filtered metadata from the cache = restriction of the last answer
+  cached_filter_exact       … with the cache's sortedness established by update (normalize_sorted), no side condition
   update_follows            after update(m) the layout and the connection groups are those of m
   conns_invariant           … along every history of updates
+  metadata_served_from_cache / metadata_autocreate_decision / metadata_autocreate_unknown / topicsToRefresh_spec / refreshDone_spec
+                            roundTrip's metadata arm: served from the cache unless auto-creation meets an unknown topic; what it then waits for
+  layout_sources            makeLayout/makePartitions field copies (regenerated tables) agree with the model's
+  parts_cover_splitters     every Splitter type of the source has a split model (regenerated table, decide)
+  split_resources_partition / split_resources_target / split_brokers_cover   DescribeConfigs and ListGroups parts: every resource / broker exactly once, at the right broker
 -/
 import KafkaVerif.Model.Routing
 import KafkaVerif.Lemmas.Routing
 import KafkaVerif.Model.Discover
+import KafkaVerif.Model.Split
+import KafkaVerif.Model.RoundTrip
+import KafkaVerif.Spec.FieldMaps
+import KafkaVerif.Gen.Mappings
 
 namespace KV.Props.C12
 open KV.Routing KV.Gen.Routing
@@ -31,7 +43,7 @@ theorem selectVersion_optimal (cmin cmax bmin bmax : Int)
     selectVersion cmin cmax bmin bmax = min cmax bmax ∧
     bmin ≤ selectVersion cmin cmax bmin bmax ∧ selectVersion cmin cmax bmin bmax ≤ bmax ∧
     cmin ≤ selectVersion cmin cmax bmin bmax ∧ selectVersion cmin cmax bmin bmax ≤ cmax := by
-  simp only [selectVersion]
+  simp only [selectVersion, KV.Gen.Routing.selectVersionSrc]
   (repeat' split) <;> omega
 
 example : selectVersion 1 5 0 3 = 3 ∧ (1:Int) ≤ 3 ∧ (0:Int) ≤ 5 := by decide
@@ -47,7 +59,7 @@ theorem selectVersion_highest (cmin cmax bmin bmax v : Int)
 /-- The monitor of Spec/Routing agrees: the model's choice always satisfies the version clause. -/
 theorem selectVersion_versionOK (cmin cmax bmin bmax : Int) (_hc : cmin ≤ cmax) (hb : bmin ≤ bmax) :
     versionOK cmin cmax bmin bmax (selectVersion cmin cmax bmin bmax) = true := by
-  unfold versionOK overlap bestVersion selectVersion
+  unfold versionOK overlap bestVersion selectVersion KV.Gen.Routing.selectVersionSrc
   by_cases h1 : cmin ≤ bmax <;> by_cases h2 : bmin ≤ cmax <;> simp [h1, h2] <;>
     (repeat' split) <;> (try simp) <;> omega
 
@@ -56,7 +68,7 @@ theorem selectVersion_versionOK (cmin cmax bmin bmax : Int) (_hc : cmin ≤ cmax
 theorem selectVersion_disjoint (cmin cmax bmin bmax : Int) (hc : cmin ≤ cmax) (hb : bmin ≤ bmax) :
     (bmax < cmin → selectVersion cmin cmax bmin bmax = cmin) ∧
     (cmax < bmin → selectVersion cmin cmax bmin bmax = cmax) := by
-  unfold selectVersion
+  unfold selectVersion KV.Gen.Routing.selectVersionSrc
   constructor <;> intro h <;> (repeat' split) <;> omega
 
 /-- Through the connection's version map: if the ApiVersions answer lists `key` exactly once with range
@@ -177,6 +189,28 @@ theorem filter_eq_last_refresh (res : MResponse) (names : List String) (hs : Sor
   intro n _
   exact Lemmas.Routing.findTopic_correct res.topics hs n
 
+
+/-- the topics of the normalised answer are exactly the answer's topics, each with its partitions sorted -/
+theorem normalize_topics_mem (m : MResponse) (t : MTopic) :
+    t ∈ (normalize m).topics ↔
+      ∃ t0 ∈ m.topics, t = { t0 with partitions := sortBy (fun a b => decide (a.index < b.index)) t0.partitions } := by
+  simp only [normalize, List.mem_map, Lemmas.Routing.mem_sortBy]
+  constructor
+  · rintro ⟨t0, h0, rfl⟩; exact ⟨t0, h0, rfl⟩
+  · rintro ⟨t0, h0, rfl⟩; exact ⟨t0, h0, rfl⟩
+
+/-- **cached_filter_exact** (`filter_eq_last_refresh` without a side condition): after a refresh that delivered
+`m` (topic names pairwise distinct, as brokers answer), a topic-filtered metadata request is answered from the
+cache with, for every requested name in request order, the entry of the (normalised) answer `m` with that name,
+or the UnknownTopicOrPartition placeholder — the sortedness the bisection needs is established by `update` itself. -/
+theorem cached_filter_exact (s : PoolState) (m : MResponse) (names : List String)
+    (hnd : (m.topics.map (·.name)).Nodup) :
+    (update s (some m) false).metadata = some (normalize m) ∧
+    filterMetadata (some names) (normalize m) =
+      { normalize m with topics := names.map fun n =>
+          ((normalize m).topics.find? (fun t => t.name == n)).getD (unknownTopic n) } :=
+  ⟨rfl, filter_eq_last_refresh (normalize m) names (Lemmas.Routing.normalize_sorted m hnd)⟩
+
 /-- an unfiltered request gets the whole cached answer -/
 theorem filter_all (res : MResponse) : filterMetadata none res = res := rfl
 
@@ -190,6 +224,14 @@ example :
 
 /-! ## refresh -/
 
+/-- the source compares the cached and the new broker entry as whole structs (id, host, port, rack) — regenerated
+fact; comparing fewer fields (e.g. only the host) would leave a re-registered broker's group at its old address -/
+theorem update_compares_whole_broker : updateCompare = .whole := by decide
+
+/-- the source sends over a broker's own connection group exactly for ids ≥ 0 (0 is a valid broker id) -/
+theorem broker_conn_guard (id : Int) : usesBrokerConn id = decide (0 ≤ id) := by
+  unfold usesBrokerConn; congr 1
+
 /-- **update_follows**: after a successful refresh with answer `m` the cached answer is `m` (normalised), the
 layout is the one built from it, and the pool has a connection group for exactly the brokers of `m`, each
 dialling the host:port that `m` gives for its broker (`ConnsInv`; given it held for the previous layout) — so
@@ -199,7 +241,7 @@ theorem update_follows (s : PoolState) (m : MResponse) (h : ConnsInv s) :
     (update s (some m) false).layout = makeLayout (normalize m) ∧
     (update s (some m) false).err = false ∧
     ConnsInv (update s (some m) false) :=
-  ⟨rfl, rfl, rfl, Lemmas.Routing.update_connsInv s (some m) false h⟩
+  ⟨rfl, rfl, rfl, Lemmas.Routing.update_connsInv update_compares_whole_broker s (some m) false h⟩
 
 /-- a failed refresh never replaces a known cluster view -/
 theorem update_error_keeps_known (s : PoolState) (m : Option MResponse) (h : s.metadata.isSome = true) :
@@ -219,7 +261,7 @@ theorem conns_invariant (hist : List (Option MResponse × Bool)) :
   | nil => intro s hs; exact hs
   | cons e es ih =>
     intro s hs
-    exact ih _ (Lemmas.Routing.update_connsInv s e.1 e.2 hs)
+    exact ih _ (Lemmas.Routing.update_connsInv update_compares_whole_broker s e.1 e.2 hs)
 
 /-- after a leader moved (or a broker re-registered at another host/port) and the refresh delivered `m`, a
 produce/fetch request for partitions that `m` says are led by broker `b` is sent to `b` at the address `m` gives -/
@@ -234,7 +276,7 @@ theorem route_follows_update (a : ApiMethods) (s : PoolState) (m : MResponse) (r
     rw [hf.2.2.2 b, hf.2.1, hin]; rfl
   unfold route
   simp only [ha, brokerMethod, hb, hf.2.1, hl, KV.Routing.ofExcept, sendTarget, hc]
-  simp [hb0]
+  simp [usesBrokerConn, hb0]
 
 /-- a broker that keeps id and host but re-registers on another port gets a new group at the new port -/
 example :
@@ -299,7 +341,7 @@ theorem refresh_loop_survives_faults (es : List DEvent) (s s' : DState)
 theorem step_connsInv (guards : List ExitGuard) (s s' : DState) (e : DEvent)
     (hs : step guards s e = some s') (h : ConnsInv s.pool) : ConnsInv s'.pool := by
   cases e <;> simp only [step] at hs <;> split at hs <;> (try cases hs) <;>
-    first | exact h | exact Lemmas.Routing.update_connsInv _ _ _ h
+    first | exact h | exact Lemmas.Routing.update_connsInv update_compares_whole_broker _ _ _ h
 
 theorem run_connsInv (guards : List ExitGuard) (es : List DEvent) (s s' : DState)
     (hrun : run guards s es = some s') (h : ConnsInv s.pool) : ConnsInv s'.pool := by
@@ -352,5 +394,199 @@ example : (run discoverExits {} [.tick, .answer ⟨0, [⟨1, "b1", 9092, ""⟩],
 
 /-- with a guard on the per-request context (the shape of seeded change C12-m3) one timeout ends the loop -/
 example : (run [.errIsOtherCtx, .poolDone] {} [.tick, .timeout]).map (·.alive) = some false := by decide
+
+/-! ## split requests (transport.go roundTrip, `case protocol.Splitter`) -/
+
+section splits
+open KV.Split
+
+/-- every request type that implements Splitter in the source has a split model (nothing is left untranslated),
+and no other type is split -/
+theorem parts_cover_splitters :
+    ∀ a ∈ apis, (parts roundTripCases a Cluster.zero [] {}).isSome = a.split := by decide
+
+/-- DescribeConfigs: the parts carry every resource exactly once — each broker resource alone in its own part
+(in request order), all other resources together in one last part -/
+theorem split_resources_partition (rs : List (Int × String × Option Int)) :
+    (splitResources rs).flatMap (·.resources) = rs.filter isBrokerResource ++ rs.filter (fun r => !isBrokerResource r) ∧
+    ((splitResources rs).flatMap (·.resources)).Perm rs ∧
+    (∀ p ∈ splitResources rs, (∃ r, isBrokerResource r = true ∧ p.resources = [r]) ∨
+      (∀ r ∈ p.resources, isBrokerResource r = false)) := by
+  have h1 : (splitResources rs).flatMap (·.resources)
+      = rs.filter isBrokerResource ++ rs.filter (fun r => !isBrokerResource r) := by
+    unfold splitResources
+    rw [List.flatMap_append]
+    congr 1
+    · induction rs.filter isBrokerResource with
+      | nil => rfl
+      | cons x xs ih => simp [List.flatMap_cons, ih]
+    · split
+      · next h => simp [List.isEmpty_iff.mp h]
+      · simp
+  refine ⟨h1, h1 ▸ List.filter_append_perm _ _, ?_⟩
+  intro p hp
+  unfold splitResources at hp
+  rcases List.mem_append.mp hp with hp | hp
+  · obtain ⟨r, hr, rfl⟩ := List.mem_map.mp hp
+    exact Or.inl ⟨r, (List.mem_filter.mp hr).2, rfl⟩
+  · right
+    split at hp
+    · cases hp
+    · rcases List.mem_singleton.mp hp with rfl
+      intro r hr
+      simpa using (List.mem_filter.mp hr).2
+
+/-- a broker-resource part is sent to the broker it names (when that broker is listed) -/
+theorem split_resources_target (c : Cluster) (id : Int) (b : Broker) (hb : c.brokers.lookup id = some b) :
+    resourceBroker c [(4, some id)] = .ok b.id := by
+  simp [resourceBroker, lookupD, hb]
+
+/-- ListGroups: one part per broker of the layout; with a well-formed layout and the pool invariant every part
+reaches its broker at the metadata's address — each broker is asked exactly once -/
+theorem split_brokers_cover (a : ApiMethods) (c : Cluster) (conns : List (Int × Addr))
+    (ha : firstCase sendRequestCases a = some .broker) (hf : a.broker = .field)
+    (hwf : BrokersWF c) (hinv : ∀ id, conns.lookup id = (c.brokers.lookup id).map Broker.addr) :
+    (splitBrokers c).length = c.brokers.length ∧
+    ∀ k b, c.brokers.lookup k = some b →
+      route sendRequestCases a c conns { field := b.id } = .broker k b.addr := by
+  refine ⟨by simp [splitBrokers], ?_⟩
+  intro k b hkb
+  obtain ⟨hid, hk0⟩ := hwf k b hkb
+  unfold route
+  simp only [ha, brokerMethod, hf, KV.Routing.ofExcept, sendTarget, hid, lookupD, hkb, Option.getD]
+  simp [usesBrokerConn, hk0, hinv k, hkb]
+
+end splits
+
+/-! ## metadata requests through roundTrip -/
+
+section roundtrip
+open KV.RoundTrip
+open KV.Lemmas.Routing (SortedTopics)
+
+/-- **metadata_served_from_cache**: without AllowAutoTopicCreation a metadata request never reaches a broker:
+it is answered with the cached (last refreshed) answer restricted to the requested topics. -/
+theorem metadata_served_from_cache (s : PoolState) (cached : MResponse) (names : Option (List String))
+    (herr : s.err = false) (hm : s.metadata = some cached) :
+    metadataDecision s ⟨names, false⟩ = .fromCache (filterMetadata names cached) := by
+  simp [metadataDecision, herr, hm]
+
+/-- with AllowAutoTopicCreation the broker is asked exactly when a requested topic is unknown to the cache
+(or cached with UnknownTopicOrPartition) -/
+theorem metadata_autocreate_decision (s : PoolState) (cached : MResponse) (names : Option (List String))
+    (herr : s.err = false) (hm : s.metadata = some cached) :
+    (metadataDecision s ⟨names, true⟩ = .askBroker ↔
+      ∃ t ∈ (filterMetadata names cached).topics, t.error = errUnknownTopic) ∧
+    ((¬ ∃ t ∈ (filterMetadata names cached).topics, t.error = errUnknownTopic) →
+      metadataDecision s ⟨names, true⟩ = .fromCache (filterMetadata names cached)) := by
+  simp only [metadataDecision, herr, hm, Bool.false_eq_true, ↓reduceIte, Bool.true_and]
+  by_cases h : (filterMetadata names cached).topics.any (fun t => t.error == errUnknownTopic) = true
+  · have hex : ∃ t ∈ (filterMetadata names cached).topics, t.error = errUnknownTopic := by
+      obtain ⟨t, ht, he⟩ := List.any_eq_true.mp h
+      exact ⟨t, ht, by simpa using he⟩
+    simp [h, hex]
+  · have hnex : ¬ ∃ t ∈ (filterMetadata names cached).topics, t.error = errUnknownTopic := by
+      rintro ⟨t, ht, he⟩
+      exact h (List.any_eq_true.mpr ⟨t, ht, by simpa using he⟩)
+    simp [h, hnex]
+
+/-- a requested name that is not in the (sorted) cache makes an auto-creating request go to the broker -/
+theorem metadata_autocreate_unknown (s : PoolState) (cached : MResponse) (names : List String) (n : String)
+    (herr : s.err = false) (hm : s.metadata = some cached) (hs : SortedTopics cached.topics)
+    (hn : n ∈ names) (habs : ∀ t ∈ cached.topics, t.name ≠ n) :
+    metadataDecision s ⟨some names, true⟩ = .askBroker := by
+  apply (metadata_autocreate_decision s cached (some names) herr hm).1.mpr
+  rw [filter_eq_last_refresh cached names hs]
+  refine ⟨unknownTopic n, ?_, rfl⟩
+  simp only [List.mem_map]
+  refine ⟨n, hn, ?_⟩
+  have : cached.topics.find? (fun t => t.name == n) = none := by
+    apply List.find?_eq_none.mpr
+    intro t ht
+    simpa using habs t ht
+  simp [this]
+
+/-- only topics that were created without error are waited for (issues 672 / 806 of the library) -/
+theorem topicsToRefresh_spec (topics : List (String × Int)) (t : String) :
+    t ∈ topicsToRefresh topics ↔ (t, 0) ∈ topics := by
+  simp only [topicsToRefresh, List.mem_map, List.mem_filter]
+  constructor
+  · rintro ⟨⟨n, e⟩, ⟨hm, he⟩, rfl⟩
+    have : e = 0 := by simpa using he
+    subst this; exact hm
+  · intro h; exact ⟨(t, 0), ⟨h, by simp⟩, rfl⟩
+
+theorem refreshDone_spec (layout : Cluster) (expect : List String) :
+    refreshDone layout expect = true ↔ ∀ t ∈ expect, ∃ x, layout.topics.lookup t = some x := by
+  simp only [refreshDone, List.all_eq_true, Option.isSome_iff_exists]
+
+end roundtrip
+
+/-! ## regenerated field copies of makeLayout / makePartitions -/
+
+section fieldmaps
+open KV.Spec.FieldMaps KV.Gen.Mappings
+
+/-- makeLayout / makePartitions copy each routing-relevant field from the metadata field the model's `makeLayout`
+copies it from (tables regenerated from transport.go; tolerant to locals, see Spec/FieldMaps.lean) -/
+theorem layout_sources :
+    allAgree makeLayout_Broker layoutBroker = true ∧ allAgree makeLayout_Cluster layoutCluster = true ∧
+    allAgree makeLayout_Topic layoutTopic = true ∧ allAgree makePartitions_Partition layoutPartition = true := by decide
+
+end fieldmaps
+
+/-! ## the leader loops regenerated by symbolic execution -/
+
+theorem leaderParts_src (c : Cluster) (t : Topic) (ps : List Int) (cur : Int) :
+    leaderPartsWith leaderStep_produce c t ps cur = leaderParts c t ps cur := by
+  induction ps generalizing cur with
+  | nil => rfl
+  | cons p ps ih =>
+    simp only [leaderPartsWith, leaderParts, leaderStep_produce]
+    cases hp : t.partitions.lookup p with
+    | none => simp [toRouteErr]
+    | some part =>
+      simp only [Option.map_some]
+      cases hb : c.brokers.lookup part.leader with
+      | none => simp [toRouteErr]
+      | some b =>
+        simp only [Option.map_some]
+        by_cases h1 : cur < 0
+        · simp [h1, ih]
+        · by_cases h2 : b.id = cur
+          · simp [h1, h2, ih]
+          · simp [h1, h2, toRouteErr]
+
+/-- **the leader loops of the source are the model's**: folding the symbolically executed iteration of
+produce's `Broker()` over a request equals `leaderAll`, from the initial value the source uses -/
+theorem leaderAll_src (c : Cluster) (tps : List (String × List Int)) (cur : Int) :
+    leaderAllWith leaderTopic_produce leaderStep_produce c tps cur = leaderAll c tps cur := by
+  induction tps generalizing cur with
+  | nil => rfl
+  | cons tp rest ih =>
+    obtain ⟨tn, ps⟩ := tp
+    simp only [leaderAllWith, leaderAll, leaderTopic_produce]
+    cases ht : c.topics.lookup tn with
+    | none => simp [toRouteErr]
+    | some t =>
+      simp only [Option.isSome_some, ↓reduceIte, Option.getD_some, leaderParts_src]
+      cases leaderParts c t ps cur with
+      | error e => rfl
+      | ok cur' => exact ih cur'
+
+/-- fetch and rawproduce use the very same iteration, prologue and initial value -/
+theorem leader_loops_agree :
+    leaderStep_fetch = leaderStep_produce ∧ leaderStep_rawproduce = leaderStep_produce ∧
+    leaderTopic_fetch = leaderTopic_produce ∧ leaderTopic_rawproduce = leaderTopic_produce ∧
+    leaderInit_fetch = leaderInit_produce ∧ leaderInit_rawproduce = leaderInit_produce ∧ leaderInit_produce = -1 :=
+  ⟨rfl, rfl, rfl, rfl, rfl, rfl, rfl⟩
+
+/-- **route_leader over the regenerated loops**: whatever produce / fetch / rawproduce `Broker()` accepts, its
+target leads every requested partition -/
+theorem route_leader_src (c : Cluster) (tps : List (String × List Int)) (b : Int) (hwf : BrokersWF c)
+    (h : leaderAllWith leaderTopic_produce leaderStep_produce c tps leaderInit_produce = .ok b) :
+    ∀ tn ps, (tn, ps) ∈ tps → ∀ p ∈ ps, LedBy c tn p b := by
+  rw [leaderAll_src] at h
+  exact route_leader c tps b hwf h
 
 end KV.Props.C12
